@@ -3,6 +3,7 @@ package main
 import (
 	"fmt"
 	"go/ast"
+	"go/parser"
 	"go/types"
 	"strings"
 )
@@ -401,10 +402,9 @@ func (r *UnitRun) evalBuiltin(st *State, name string, e *ast.CallExpr) Val {
 			na := r.fresh("copied", fmt.Sprintf("(Array Int %s)", dst.S.ESrt))
 			qcount++
 			k := fmt.Sprintf("k!q%d", qcount)
-			srcArr := r.sliceArr(st, src.S)
 			inside := and(sx("<=", dst.S.Off, k), sx("<", k, add(dst.S.Off, n)))
-			st.assume(fmt.Sprintf("(forall ((%s Int)) (! (= (select %s %s) (ite %s (select %s (+ %s (- %s %s))) (select %s %s))) :pattern ((select %s %s))))",
-				k, na, k, inside, srcArr, src.S.Off, k, dst.S.Off, old, k, na, k))
+			st.assume(fmt.Sprintf("(forall ((%s Int)) (! (= (select %s %s) (ite %s %s (select %s %s))) :pattern ((select %s %s))))",
+				k, na, k, inside, r.srcElemTerm(st, src.S, sub(k, dst.S.Off)), old, k, na, k))
 			nv := *dst.S
 			nv.Arr, nv.From = na, nil
 			dst.S.From.store(st, Val{K: KSlice, S: &nv, Go: dst.Go})
@@ -426,16 +426,24 @@ func (r *UnitRun) evalBuiltin(st *State, name string, e *ast.CallExpr) Val {
 		na := r.fresh("copied", fmt.Sprintf("(Array Int %s)", o.elem))
 		qcount++
 		k := fmt.Sprintf("k!q%d", qcount)
-		srcArr := r.sliceArr(st, src.S)
 		inside := and(sx("<=", dst.S.Off, k), sx("<", k, add(dst.S.Off, n)))
-		st.assume(fmt.Sprintf("(forall ((%s Int)) (! (= (select %s %s) (ite %s (select %s (+ %s (- %s %s))) (select %s %s))) :pattern ((select %s %s))))",
-			k, na, k, inside, srcArr, src.S.Off, k, dst.S.Off, old, k, na, k))
+		st.assume(fmt.Sprintf("(forall ((%s Int)) (! (= (select %s %s) (ite %s %s (select %s %s))) :pattern ((select %s %s))))",
+			k, na, k, inside, r.srcElemTerm(st, src.S, sub(k, dst.S.Off)), old, k, na, k))
 		st.arrs[o] = na
 		return intV(n)
 	case "append":
 		return r.evalAppend(st, e)
 	}
 	panic(toolLimit("builtin " + name))
+}
+
+// srcElemTerm: the element at relative position p of a slice, read through its zero-based view when that is still valid
+// (so that facts stated over the view apply without arithmetic in trigger positions)
+func (r *UnitRun) srcElemTerm(st *State, s *SliceVal, p string) string {
+	if s.View != "" && r.sliceArr(st, s) == s.viewOf {
+		return sx("select", s.View, p)
+	}
+	return sx("select", r.sliceArr(st, s), add(s.Off, p))
 }
 
 func (r *UnitRun) evalAppend(st *State, e *ast.CallExpr) Val {
@@ -505,6 +513,40 @@ func (r *UnitRun) evalAppend(st *State, e *ast.CallExpr) Val {
 
 func (r *UnitRun) applyContract(st *State, callee *Unit, recv *Val, args []Val, e *ast.CallExpr) Val {
 	return r.applyContractSelf(st, callee, recv, args, e, nil)
+}
+
+// paramStruct: the struct type behind the parameter or receiver called name (nil when there is none)
+func (u *Unit) paramStruct(name string) types.Type {
+	var t types.Type
+	if u.Recv != nil && u.Recv.Name() == name {
+		t = u.Recv.Type()
+	}
+	if u.Sig != nil {
+		for i := 0; i < u.Sig.Params().Len(); i++ {
+			if u.Sig.Params().At(i).Name() == name {
+				t = u.Sig.Params().At(i).Type()
+			}
+		}
+	}
+	if t == nil {
+		return nil
+	}
+	if p, ok := types.Unalias(t).Underlying().(*types.Pointer); ok {
+		t = p.Elem()
+	}
+	if _, ok := types.Unalias(t).Underlying().(*types.Struct); ok {
+		return t
+	}
+	return nil
+}
+
+func (u *Unit) modifiesGenIdx() bool {
+	for _, m := range u.Modifies {
+		if strings.HasPrefix(m, "genIdx(") {
+			return true
+		}
+	}
+	return false
 }
 
 func (u *Unit) paramNames() (recv string, params []specParam, results []specParam) {
@@ -608,6 +650,9 @@ func (r *UnitRun) applyContractSelf(st *State, callee *Unit, recv *Val, args []V
 	}
 	// frame: havoc what the callee modifies
 	for _, m := range callee.Modifies {
+		if strings.HasPrefix(m, "genIdx(") {
+			continue // after the results are bound (a generator constructor names its result)
+		}
 		r.havocModified(st, callee, m, bound, e)
 	}
 	// results
@@ -636,6 +681,16 @@ func (r *UnitRun) applyContractSelf(st *State, callee *Unit, recv *Val, args []V
 	}
 	if len(results) > 0 {
 		bound["res"] = outs[0]
+	}
+	for _, v := range outs {
+		if v.K == KFunc && callee.Returns == "fresh" && v.Fn.term != "" {
+			st.markFresh(v.Fn.term)
+		}
+	}
+	for _, m := range callee.Modifies {
+		if strings.HasPrefix(m, "genIdx(") {
+			r.havocModified(st, callee, m, bound, e)
+		}
 	}
 	env2 := &SpecEnv{run: r, st: st, old: pre, bound: bound}
 	for _, c := range callee.Ensures {
@@ -671,6 +726,27 @@ func (r *UnitRun) specBool(env *SpecEnv, c Clause, ctx string) (res string) {
 
 func (r *UnitRun) havocModified(st *State, callee *Unit, m string, bound map[string]Val, n ast.Node) {
 	switch {
+	case strings.HasPrefix(m, "genIdx("):
+		// the abstract index of one generator (ghost): only that entry of the map changes. The caller's frame permits it
+		// when the generator was created in this call, or when the caller's own modifies clause names the same generator.
+		f := r.genIdxTarget(st, m, bound, "modifies of "+callee.Name)
+		ok := st.fresh(f)
+		if !ok {
+			for _, own := range r.unit.Modifies {
+				if strings.HasPrefix(own, "genIdx(") {
+					func() {
+						defer func() { recover() }()
+						if r.genIdxTarget(r.entry, own, map[string]Val{"self": r.entry.ghost["self"]}, "modifies of "+r.unit.Name) == f {
+							ok = true
+						}
+					}()
+				}
+			}
+		}
+		r.obligeStatic(st, "frame", fmt.Sprintf("call%d.genIdx", r.callOrd0(n)), ok, n, "callee "+callee.Name+" advances the generator "+m+": it is created in this call or named in this unit's modifies clause")
+		cur := st.ghost["genIdx"]
+		cur.T = sx("store", cur.T, f, r.fresh("havoc_genIdx", idxSort))
+		st.ghost["genIdx"] = cur
 	case strings.HasPrefix(m, "*"):
 		v, ok := bound[m[1:]]
 		if !ok || v.K != KPtr {
@@ -682,6 +758,23 @@ func (r *UnitRun) havocModified(st *State, callee *Unit, m string, bound map[str
 			panic(toolLimit("modifies " + m + ": pointee has no type"))
 		}
 		v.P.store(st, nv)
+	case strings.Contains(m, ".") && func() bool { _, ok := bound[strings.SplitN(m, ".", 2)[0]]; return ok }():
+		// field of one parameter object: only that object's field changes
+		parts := strings.SplitN(m, ".", 2)
+		obj := bound[parts[0]]
+		if obj.K != KRef || obj.Go == nil {
+			panic(toolLimit("modifies " + m + " of " + callee.Name + ": not an object parameter"))
+		}
+		sty := obj.Go
+		if p, ok := types.Unalias(sty).Underlying().(*types.Pointer); ok {
+			sty = p.Elem()
+		}
+		fi := r.prog.World.field(sty, parts[1])
+		ok := st.fresh(obj.T) || r.modifiesField(fi.name) || r.modifiesParamField(obj.T, fi.name) || r.unit.Public
+		r.obligeStatic(st, "frame", fmt.Sprintf("call%d.%s", r.callOrd0(n), sanitize(m)), ok, n, "callee "+callee.Name+" modifies "+m+": the object is allocated in this call or the field is in this unit's modifies clause")
+		h := r.heapTerm(st, fi)
+		nv := r.fresh("havoc_"+sanitize(fi.name), fi.valSort)
+		st.heap[fi.name] = sx("store", h, obj.T, nv)
 	case strings.Contains(m, "."):
 		// heap field
 		parts := strings.SplitN(m, ".", 2)
@@ -743,6 +836,17 @@ func (r *UnitRun) havocModified(st *State, callee *Unit, m string, bound map[str
 		}
 		panic(toolLimit("modifies " + m + " of " + callee.Name + ": cannot resolve at call site"))
 	}
+}
+
+// genIdxTarget evaluates the generator expression of a "genIdx(expr)" modifies entry.
+func (r *UnitRun) genIdxTarget(st *State, m string, bound map[string]Val, ctx string) string {
+	x, err := parser.ParseExpr(strings.TrimSuffix(strings.TrimPrefix(m, "genIdx("), ")"))
+	if err != nil {
+		panic(toolLimit(ctx + ": bad generator expression in " + m))
+	}
+	env := &SpecEnv{run: r, st: st, old: r.entry, bound: bound}
+	v := env.eval(x)
+	return r.coerce(st, v, "Fn", "genIdx")
 }
 
 func (r *UnitRun) callOrd0(n ast.Node) int {
